@@ -43,8 +43,16 @@ func c16(seed uint64, n int, args []string) {
 	}
 	if what == "all" || what == "live" {
 		for _, ms := range []uint32{400, 1000} {
-			if err := c16live(ms, 1900*time.Millisecond); err != nil {
+			if err := c16live(ms, 1900*time.Millisecond, 0); err != nil {
 				emit(map[string]interface{}{"kind": "error", "scenario": "live", "err": err.Error()})
+			}
+		}
+	}
+	if what == "all" || what == "skew" {
+		// the server's clock differs from the client's: the token's createdAt is shifted, its lifetime is not
+		for _, off := range []time.Duration{500 * time.Millisecond, -400 * time.Millisecond} {
+			if err := c16live(1000, 1700*time.Millisecond, off); err != nil {
+				emit(map[string]interface{}{"kind": "error", "scenario": "skew", "err": err.Error()})
 			}
 		}
 	}
@@ -62,8 +70,8 @@ func c16(seed uint64, n int, args []string) {
 }
 
 // c16live lets the real renewal timer run with a short lifetime while requests are issued continuously.
-func c16live(lifetimeMS uint32, dur time.Duration) error {
-	p, err := NewPair(PairOpts{Timeout: 2 * time.Second, LifetimeMS: lifetimeMS})
+func c16live(lifetimeMS uint32, dur time.Duration, srvClock time.Duration) error {
+	p, err := NewPair(PairOpts{Timeout: 2 * time.Second, LifetimeMS: lifetimeMS, SrvClock: srvClock})
 	if err != nil {
 		return err
 	}
@@ -102,7 +110,7 @@ func c16live(lifetimeMS uint32, dur time.Duration) error {
 			opn = append(opn, f.AtMS)
 		}
 	}
-	emit(map[string]interface{}{"kind": "live", "lifetime_ms": lifetimeMS, "duration_ms": float64(dur.Milliseconds()), "opn_at_ms": opn,
+	emit(map[string]interface{}{"kind": "live", "server_clock_offset_ms": float64(srvClock.Milliseconds()), "lifetime_ms": lifetimeMS, "duration_ms": float64(dur.Milliseconds()), "opn_at_ms": opn,
 		"requests": total, "failed": failed, "errors": errs, "server_errors": p.Srv.Errs(), "stall_ms": stallMS()})
 	return nil
 }
